@@ -47,6 +47,21 @@ def make_jobs(chk, n, seed_off=0, extra=None):
                      prune=False, seed=rnd.getrandbits(16))
             if extra: j.update(extra(rnd, j))
             jobs.append(j); continue
+        if i % 5 == 2:
+            # high rate ratio: a node that runs 8-16 times between two supervisor steps (many slots of one kind per partition; with jittery
+            # computation delays the number varies, so later slots of the kind are masked in some partitions)
+            fastP = rnd.choice([2, 2, 4]); supP = 32
+            nodes = {"n0": dict(nid=0, period=supP, exp=1, delays=[1, 3], advance=False, sched="FREQ"),
+                     "n1": dict(nid=1, period=fastP, exp=0, delays=[rnd.choice([0, 1]), 1, fastP, 2 * fastP + 1, 0], advance=False, sched="FREQ"),
+                     "n2": dict(nid=2, period=rnd.choice([8, 16]), exp=1, delays=[2, 5], advance=False, sched="FREQ")}
+            conns = {"n1>n0": dict(out="n1", **{"in": "n0"}, blocking=False, skip=False, jitter="LATEST", window=rnd.choice([1, 3]), exp=1, delays=[0, 1]),
+                     "n0>n2": dict(out="n0", **{"in": "n2"}, blocking=False, skip=False, jitter="LATEST", window=1, exp=1, delays=[1]),
+                     "n2>n1": dict(out="n2", **{"in": "n1"}, blocking=False, skip=True, jitter="LATEST", window=2, exp=1, delays=[0, 2])}
+            cfg = dict(nodes=nodes, conns=conns, sup="n0", steps=4)
+            src = rnd.choice(["generate", "async"])
+            j = dict(id=f"r{i}", cfg=cfg, source=src, tmax=supP * 4, steps=[4, 3], episodes=2, mode=MODES[(i // 5 + chk.seed + 1) % 3], prune=rnd.random() < 0.5, seed=rnd.getrandbits(16))
+            if extra: j.update(extra(rnd, j))
+            jobs.append(j); continue
         short = (i % 5 == 3)     # very short horizons: windows still partly unfilled when the episode ends
         if i % 2 == 0:
             cfg = cl.gen_cfg_generated(rnd, max_nodes=3 if chk.tier == "quick" else 4)
@@ -140,6 +155,21 @@ def evaluate(chk, jobs, res, prop):
                                 elif (snd, ent[0]) in outs and ent[3] != outs[(snd, ent[0])]:
                                     chk.violation("window-read-not-scheduled-payload", f"episode {e}: {n}[{row[0]}] reads message {ent[0]} of {snd} "
                                                   f"with payload {ent[3]}, the producer emitted {outs[(snd, ent[0])]}", case)
+                # the float side channel: NaN at seq % 7 == 3, inf at seq % 11 == 5, default -1.5: exactly what the producer emitted at that seq
+                import math
+                from .async_worker_consts import side_f, DEFAULT_F
+                for n in cfg["nodes"]:
+                    c = ep["rows"][n]
+                    for k in range(len(c["seq"])):
+                        if c["seq"][k] < 0 or "winf" not in c: continue
+                        for snd, fs in c["winf"][k].items():
+                            for (ent, fv) in zip(c["wins"][k][snd], fs):
+                                want = DEFAULT_F if ent[0] < 0 else side_f(cfg["nodes"][snd]["nid"], ent[0])
+                                produced = ent[0] < 0 or (snd, ent[0]) in outs
+                                same = (math.isnan(want) and math.isnan(fv)) or want == fv
+                                if produced and not same:
+                                    chk.violation("window-read-not-scheduled-payload(float)", f"episode {e}: {n}[{c['seq'][k]}] entry seq {ent[0]} of {snd} carries float "
+                                                  f"payload {fv}, the producer emitted {want}", case); break
             if m["checksym"] != 1 and not j.get("starting_step"):
                 chk.violation("window-read-not-scheduled-payload", f"episode {e}: symbolic run with ring sizes {r['ring']}: some window entry is not the "
                               f"scheduled producer's output (an output was overwritten before its last reader, or a wrong slot was read)", case)
